@@ -35,6 +35,24 @@ def optimise_fn(lib, adt):
     raise AnchorMissing("impl OptimisationProcedure for %s :: optimise" % adt)
 
 
+def lift_sites(lib, root, g, bb, depth=0):
+    """(function, block) pairs inside `root` (or its closures) that stand for block `bb` of `g`:
+    `g` itself when it is root / a closure of root, otherwise the call sites of the helper `g`
+    (same file) through which root reaches it"""
+    if g is root or (g.parent or "") == root.defn:
+        return [(g, bb)]
+    if depth > 2 or g.file != root.file:
+        return []
+    out = []
+    for h in lib.fns.values():
+        if h.file != root.file or h is g:
+            continue
+        for c in h.calls:
+            if (c.resolved or c.defn) == g.defn or any(x is g for x in lib.callees(c)):
+                out += lift_sites(lib, root, h, c.bb, depth + 1)
+    return out
+
+
 def flag_arm(fn, node):
     """(variant, call) pairs: node is dominated by the `variant` arm of a match on the flag
     returned by `call`"""
@@ -50,39 +68,44 @@ def flag_arm(fn, node):
 def o1(led, rid, ctx):
     lib = ctx.lib
     n = 0
-    allowed_fns = {optimise_fn(lib, LSU).defn: LSU, optimise_fn(lib, LUS).defn: LUS}
+    roots = {LSU: optimise_fn(lib, LSU), LUS: optimise_fn(lib, LUS)}
     for f in lib.fns.values():
-        for bb, i, s in aggregates(f, "OptimisationResult", "Optimal"):
-            n += 1
-            root = f.parent or f.defn
+        for bb0, i, s in aggregates(f, "OptimisationResult", "Optimal"):
             site = "%s:%d" % (f.file, s["line"])
-            if root not in allowed_fns:
-                led.bad(rid, "who:%s" % root, site, "OptimisationResult::Optimal is constructed "
-                        "outside the two optimisation procedures")
+            which = None
+            for w, r in roots.items():
+                if f.file == r.file:
+                    which = w
+            sites = lift_sites(lib, roots[which], f, bb0) if which else []
+            if not sites:
+                n += 1
+                led.bad(rid, "who:%s" % (f.parent or f.defn), site, "OptimisationResult::Optimal is constructed "
+                        "outside the two optimisation procedures (and not in a helper they call)")
                 continue
-            which = allowed_fns[root]
-            arms = flag_arm(f, bb)
-            if which == LSU:
-                ok = any(v == "Infeasible" and c.name == "solve" for v, c in arms)
-                if not ok:
-                    # the other legitimate site: strengthening failed
-                    for g in guards_of(f, bb):
-                        if g.kind == "bool" and g.val is True:
-                            a = peel(g.atom, calls=None)
-                            if a.k == "call" and a.a.name == "is_err" and a.b and \
-                                    peel(a.b[0], calls=None).k == "call" and \
-                                    peel(a.b[0], calls=None).a.name == "strengthen":
-                                ok = True
-                led.check(ok, rid, "LSU:Optimal@%s" % ("+".join(sorted({v for v, _ in arms})) or "-"), site,
-                          "after an infeasible solve / failed strengthening",
-                          "SAT-UNSAT returns Optimal on a path that is neither the Infeasible arm of "
-                          "a solve nor the failure of `strengthen` (arms: %s)" % arms)
-            else:
-                ok = any(v == "Feasible" and c.name == "solve_under_assumptions" for v, c in arms)
-                led.check(ok, rid, "LUS:Optimal@%s" % ("+".join(sorted({v for v, _ in arms})) or "-"), site,
-                          "after the solve under the bound assumption succeeded",
-                          "UNSAT-SAT returns Optimal on a path that is not the Feasible arm of the "
-                          "solve under the lower-bound assumption (arms: %s)" % arms)
+            for f2, bb in sites:
+                n += 1
+                arms = flag_arm(f2, bb)
+                if which == LSU:
+                    ok = any(v == "Infeasible" and c.name == "solve" for v, c in arms)
+                    if not ok:
+                        # the other legitimate site: strengthening failed
+                        for g in guards_of(f2, bb):
+                            if g.kind == "bool" and g.val is True:
+                                a = peel(g.atom, calls=None)
+                                if a.k == "call" and a.a.name == "is_err" and a.b and \
+                                        peel(a.b[0], calls=None).k == "call" and \
+                                        peel(a.b[0], calls=None).a.name == "strengthen":
+                                    ok = True
+                    led.check(ok, rid, "LSU:Optimal@%s" % ("+".join(sorted({v for v, _ in arms})) or "-"), site,
+                              "after an infeasible solve / failed strengthening",
+                              "SAT-UNSAT returns Optimal on a path that is neither the Infeasible arm of "
+                              "a solve nor the failure of `strengthen` (arms: %s)" % arms)
+                else:
+                    ok = any(v == "Feasible" and c.name == "solve_under_assumptions" for v, c in arms)
+                    led.check(ok, rid, "LUS:Optimal@%s" % ("+".join(sorted({v for v, _ in arms})) or "-"), site,
+                              "after the solve under the bound assumption succeeded",
+                              "UNSAT-SAT returns Optimal on a path that is not the Feasible arm of the "
+                              "solve under the lower-bound assumption (arms: %s)" % arms)
     led.floor(rid, "Optimal constructions", n, 3)
 
 
@@ -273,6 +296,15 @@ def o4(led, rid, ctx):
               "solve adds no clause: the search would repeat the same bound forever")
 
 
+def _closure_site(f, h):
+    """block of f in which the closure h is created (entry block if it cannot be found)"""
+    for b in f.blocks:
+        for st in b["stmts"]:
+            if st["s"] == "assign" and st["rv"]["r"] == "closure" and st["rv"]["def"] == h.defn:
+                return b["id"]
+    return 0
+
+
 def o5(led, rid, ctx):
     """incumbent defined before any return that hands it out (shares C01-S2)"""
     lib = ctx.lib
@@ -282,15 +314,20 @@ def o5(led, rid, ctx):
         upd = f.calls_named("update_best_solution_and_process")
         led.check(len(upd) >= 2, rid, "%s:updates" % which, f.span, "%d incumbent updates" % len(upd),
                   "incumbent is updated at %d sites (initial solve and loop expected)" % len(upd))
-        cfg = f.cfg
         for variant in ("Optimal", "Satisfiable"):
-            for bb, i, s in aggregates(f, "OptimisationResult", variant):
-                n += 1
-                ok = any(cfg.dominates(u.bb, bb) for u in upd)
-                led.check(ok, rid, "%s:%s-after-update" % (which, variant), "%s:%d" % (f.file, s["line"]),
-                          "an incumbent update dominates the return",
-                          "%s is returned on a path on which the incumbent was never assigned "
-                          "(placeholder Solution::default() escapes)" % variant)
+            for g in lib.fns.values():
+                if g.file != f.file or "/tests" in g.file:
+                    continue
+                for bb0, i, s in aggregates(g, "OptimisationResult", variant):
+                    sites = lift_sites(lib, f, g, bb0)
+                    n += max(1, len(sites))
+                    ok = bool(sites) and all(h is f and any(f.cfg.dominates(u.bb, bb) for u in upd) or
+                                             (h is not f and any(f.cfg.dominates(u.bb, _closure_site(f, h)) for u in upd))
+                                             for h, bb in sites)
+                    led.check(ok, rid, "%s:%s-after-update" % (which, variant), "%s:%d" % (g.file, s["line"]),
+                              "an incumbent update dominates the return",
+                              "%s is returned on a path on which the incumbent was never assigned "
+                              "(placeholder Solution::default() escapes)" % variant)
     led.floor(rid, "solution-carrying returns", n, 5)
     # the callee assigns both out-parameters on every path
     g = lib.fn("OptimisationProcedure::update_best_solution_and_process")
@@ -336,45 +373,92 @@ def o8(led, rid, ctx):
                   "different model" % (show(cl)[:80] if cl is not None else c.name))
 
 
+def arg_origins(lib, g, e, depth=0):
+    """[(function, E)]: `e` in g, or — when it is a parameter of the helper g — the expressions
+    the callers in the same file pass for it"""
+    e0 = peel(e, calls=None)
+    if e0.k == "arg" and depth < 3:
+        outs = []
+        for h in lib.fns.values():
+            if h.file != g.file or h is g:
+                continue
+            Rh = None
+            for c2 in h.calls:
+                if ((c2.resolved or c2.defn) == g.defn or any(x is g for x in lib.callees(c2))) and len(c2.args) >= e0.a:
+                    Rh = Rh or resolver(h)
+                    outs += arg_origins(lib, h, Rh.operand(c2.args[e0.a - 1]), depth + 1)
+        if outs:
+            return outs
+    return [(g, e0)]
+
+
 def o9(led, rid, ctx):
     """the bound the proof is concluded with is the incumbent expressed on the scaled objective the
     predicate is over: best × multiplier in the arm of either direction, in both procedures
-    (best = multiplier × value(scaled objective) by O3, so the product is that value itself)"""
+    (best = multiplier × value(scaled objective) by O3, so the product is that value itself).
+    A conclusion made in a helper of the procedure is traced to the helper's call sites."""
     lib = ctx.lib
     n = 0
     shapes = {}
     for tag in (LSU, LUS):
-        f = optimise_fn(lib, tag)
-        R = resolver(f)
-        calls = f.calls_named("conclude_proof_optimal")
+        root = optimise_fn(lib, tag)
+        calls = [(g, c) for g in lib.fns.values() if g.file == root.file and "/tests" not in g.file
+                 for c in g.calls_named("conclude_proof_optimal")]
         if not calls:
-            raise AnchorMissing("conclude_proof_optimal in %s::optimise" % tag)
-        for c in calls:
-            e = peel(R.operand(c.args[1]), calls=None)
-            alts = e.a if e.k == "phi" else [e]
-            sh = set()
-            for a in alts:
-                a = peel(a, calls=None)
-                n += 1
-                name = a.a.name if a.k == "call" else a.k
-                const = a.b[-1] if a.k == "call" and a.b else None
-                scaled = False
-                if const is not None:
-                    for x in const.walk():
-                        if x.k == "binop" and x.a.startswith("Mul"):
-                            for side in (x.b, x.c):
-                                sd = peel(side, calls=None)
-                                vals = sorted(y.a for y in (sd.a if sd.k == "phi" else [])
-                                              if getattr(y, "k", None) == "const" and y.a is not None)
-                                if vals == [-1, 1]:
-                                    scaled = True
-                sh.add((name, scaled))
-                led.check(scaled, rid, "%s:conclusion:%s" % (tag, name), c.span, "best × multiplier",
-                          "%s::optimise concludes the proof with %s(objective, %s): the incumbent is stored in "
-                          "the user's direction and must be multiplied by the objective multiplier to become a "
-                          "bound on the scaled objective; for a maximisation the proof claims a bound of the "
-                          "wrong sign" % (tag, name, show(const)[:80] if const is not None else "?"))
-            shapes.setdefault(tag, set()).update(sh)
+            raise AnchorMissing("conclude_proof_optimal in %s" % root.file)
+        for g, c in calls:
+            for g2, e in arg_origins(lib, g, resolver(g).operand(c.args[1])):
+                alts = e.a if e.k == "phi" else [e]
+                sh = set()
+                for a in alts:
+                    a = peel(a, calls=None)
+                    n += 1
+                    name = a.a.name if a.k == "call" else a.k
+                    const = a.b[-1] if a.k == "call" and a.b else None
+                    # direction under which this alternative is built (if the code says so)
+                    dirs = set()
+                    if a.k == "call":
+                        for fa in guards_of(a.a.fn, a.a.bb):
+                            if fa.kind == "variant" and fa.val in ("Maximise", "Minimise") and not fa.neg:
+                                dirs.add(fa.val)
+                    dirs = dirs or {"Maximise", "Minimise"}
+                    scaled = const is not None
+                    why = ""
+                    if const is not None:
+                        from ..predalg import ev, Unknown
+                        for d in sorted(dirs):
+                            mult = -1 if d == "Maximise" else 1
+                            for b in (-3, -1, 0, 2, 5):
+                                def leaf(x, mult=mult, b=b):
+                                    if x.k == "phi":
+                                        vals = sorted(y.a for y in x.a if getattr(y, "k", None) == "const" and y.a is not None)
+                                        if vals == [-1, 1]:
+                                            return mult
+                                        return None
+                                    if x.k in ("arg", "local") or (x.k == "call" and x.a.name in ("default", "clone", "get_assigned_integer_value")):
+                                        return b
+                                    if x.k == "proj":
+                                        return b
+                                    return None
+                                try:
+                                    v = ev(const, leaf)
+                                except Unknown as u:
+                                    scaled = False
+                                    why = "cannot be evaluated (%s)" % u
+                                    break
+                                if v != mult * b:
+                                    scaled = False
+                                    why = "is %d for best = %d when the direction is %s (expected %d)" % (v, b, d, mult * b)
+                                    break
+                            if not scaled:
+                                break
+                    sh.add((name, scaled))
+                    led.check(scaled, rid, "%s:conclusion:%s" % (tag, name), c.span, "best × multiplier (decided per direction)",
+                              "%s concludes the proof with %s(objective, %s), which %s: the incumbent is stored in "
+                              "the user's direction and must be multiplied by the objective multiplier to become a "
+                              "bound on the scaled objective; for a maximisation the proof claims a bound of the "
+                              "wrong sign" % (tag, name, show(const)[:80] if const is not None else "?", why))
+                shapes.setdefault(tag, set()).update(sh)
     led.check(shapes.get(LSU) == shapes.get(LUS), rid, "conclusions-agree", None, "same predicate kinds in both procedures",
               "the two procedures conclude with different predicate kinds: %s vs %s" % (sorted(shapes.get(LSU, [])), sorted(shapes.get(LUS, []))))
     led.floor(rid, "conclusion predicate alternatives", n, 6)
